@@ -125,6 +125,37 @@ pub fn gen(ctx: &mut Ctx) {
             ctx.line(&format!("st.val {} {}", fam, b), &format!("{} {} {}", dbg, byte, back));
         }
     }
+    // ---- the mapping as `Client::authenticate` applies it: every status byte injected as the store's answer to
+    //      the lookup and to the counter update, every CTAP2 error as the user check's answer, and the
+    //      authenticator's own "no credentials" (empty store, unknown id, other RP)
+    {
+        use crate::au::{Hm, Kind, UvState, World};
+        use crate::cl::{cstep, run_ccase, simple_auth, simple_reg, COp};
+        let kinds: &[Kind] = if ctx.thorough { &[Kind::RefFull, Kind::Map, Kind::Slot] } else { &[Kind::RefFull] };
+        for kind in kinds {
+            let w = World { kind: *kind, counter_on: true, id_len: 16, hm: Hm::None, preload: vec![] };
+            let site = "https://www.example.com";
+            let mut steps = vec![cstep(COp::Auth(simple_auth(ctx, site, Some("example.com")))), cstep(COp::Reg(simple_reg(ctx, site, Some("example.com"))))];
+            { let mut a = simple_auth(ctx, site, Some("example.com")); a.allow = Some(vec![vec![9, 9, 9]]); steps.push(cstep(COp::Auth(a))); }
+            steps.push(cstep(COp::Auth(simple_auth(ctx, "https://accounts.example.org", None))));
+            for b in 0..=255u8 {
+                let mut s = cstep(COp::Auth(simple_auth(ctx, site, Some("example.com")))); s.faults = vec![None, Some(b)]; steps.push(s);
+                ctx.stat("c13.client.lookup_status");
+            }
+            for b in 0..=255u8 {
+                let mut s = cstep(COp::Auth(simple_auth(ctx, site, Some("example.com")))); s.faults = vec![None, None, Some(b)]; steps.push(s);
+                ctx.stat("c13.client.update_status");
+            }
+            for b in 0..=255u8 {
+                // the user check answers with a `Ctap2Error`: only bytes that are one can be injected there
+                if passkey_types::ctap2::Ctap2Error::try_from(b).is_err() { continue; }
+                let mut s = cstep(COp::Auth(simple_auth(ctx, site, Some("example.com")))); s.uv = UvState { answer: Err(b), ..UvState::ok() }; steps.push(s);
+                ctx.stat("c13.client.user_check_status");
+            }
+            steps.push(cstep(COp::Auth(simple_auth(ctx, site, Some("example.com")))));
+            run_ccase(ctx, "C13", &w, &steps);
+        }
+    }
     // ---- options map defaults
     for mask in 0..27u32 {
         let mut m = vec![];
